@@ -203,7 +203,7 @@ SHAPES = [[[50.0]], [[12.0, 30.0, 6.0]], [[20.0, 8.0], [40.0]], [[3.0], [5.0, 9.
 
 def gen_counting(rng, n_shapes, n_mu):
     out = []
-    shapes = SHAPES[:] if n_shapes >= len(SHAPES) else [SHAPES[0]] + rng.sample(SHAPES[1:], n_shapes - 1)
+    shapes = SHAPES[:] if n_shapes >= len(SHAPES) else [SHAPES[0], SHAPES[2]] + rng.sample([SHAPES[1]] + SHAPES[3:], max(0, n_shapes - 2))
     for channels in shapes:
         r = rng.choice([0.25, 0.125, 0.5])
         flat = [b for ch in channels for b in ch]
@@ -324,7 +324,7 @@ def run(ctx):
             lmodels = [decode_layout(r) for r in res]
         except (core.CoqEvalError, AssertionError, KeyError) as e:
             tie = tie or ('model evaluation failed: %s' % str(e)[-800:])
-    backends = ['numpy'] + ([] if ctx.quick else ['pytorch', 'jax'])
+    backends = ['numpy', 'pytorch'] + ([] if ctx.quick else ['jax'])
     for be in backends:
         L = Layout(be)
         refs = {}
@@ -386,7 +386,7 @@ def run(ctx):
     ctx.log('prerequisite runs done')
 
     # ---- (3) counting models ----
-    ccases = load_corpus() + gen_counting(rng, ctx.n(3, 5), ctx.n(1, 3))
+    ccases = load_corpus() + gen_counting(rng, ctx.n(3, 5), ctx.n(2, 4))
     couts = run_counting(ccases)
     ctx.log('%d counting-model hypothesis tests run' % len(ccases))
     items = []
